@@ -135,6 +135,10 @@ pub fn generate(prop: &str, _tier: Tier, rng: &mut Rng, _idx: u64) -> Case {
                 // live in their own space and coincide with the client's all the time
                 cfg.inbound = true;
                 cfg.inbound_absent_ids = true;
+                // subscriptions whose stream the application has dropped (their clean-up runs
+                // while other operations are outstanding)
+                cfg.drop_streams = rng.coin();
+                cfg.w_ops[3] += 2;
             }
             let mut g = Gen::new(cfg, rng);
             g.preamble();
@@ -218,6 +222,10 @@ pub fn generate(prop: &str, _tier: Tier, rng: &mut Rng, _idx: u64) -> Case {
             if prop == "C08" {
                 cfg.writer_tweaks = rng.coin();
                 cfg.pubrel_variants = rng.chance(2, 3);
+            }
+            if prop == "C07" && rng.chance(1, 4) {
+                cfg.strict_wakers = true;
+                cfg.spurious = true;
             }
             let mut g = Gen::new(cfg, rng);
             g.preamble();
@@ -327,11 +335,22 @@ pub fn judge(prop: &str, sc: &Scenario, aux: Option<&Scenario>) -> Judged {
         }
         "C07" => {
             let mut found = oracle::c07(&a);
-            if (1..a.conns.len()).any(|c| oracle::session_carried(&a, c) != Some(true)) {
-                // a session that expired while offline takes its subscriptions with it: that the
-                // old streams end at the reset is not judged here (C07 does not speak of
-                // reconnections); what the NEW subscription receives is
-                found.retain(|x| !x.class.ends_with("/early-end"));
+            // a session that expired while offline takes its subscriptions with it: that the
+            // streams of EARLIER connections end at the reset is not judged here (C07 does not
+            // speak of reconnections); subscriptions made afterwards are judged as usual
+            let expired_at: Option<usize> = (1..a.conns.len()).rev().find(|c| oracle::effective_elapsed(&a, *c).is_some() && oracle::session_carried(&a, *c) != Some(true));
+            if let Some(cx) = expired_at {
+                found.retain(|x| {
+                    if !x.class.ends_with("/early-end") {
+                        return true;
+                    }
+                    // "stream <n> ended ..."
+                    let sub: Option<usize> = x.message.split_whitespace().nth(1).and_then(|t| t.parse().ok());
+                    match sub.and_then(|s| a.request_of(s).first().map(|w| w.conn)) {
+                        Some(conn) => conn >= cx,
+                        None => false,
+                    }
+                });
             }
             viols.extend(found);
             let live_streams = a.streams.values().filter(|s| s.opened.is_some()).count();
